@@ -79,6 +79,55 @@ func intsShape(r *Rand, vals []int64) TV {
 	return tvSlice("[]int", l...)
 }
 
+// bigUShape: the value v stands for 2^63+v, written as an unsigned integer, a decimal string or a mix (identities beyond
+// the int64 range; both sides of a docset use this shape, so matches still happen)
+func bigUShape(r *Rand, vals []int64) TV {
+	u := func(v int64) uint64 { return uint64(1<<63) + uint64(v) }
+	l := make([]TV, len(vals))
+	for i, v := range vals {
+		switch r.Intn(3) {
+		case 0:
+			l[i] = tvUint("uint64", u(v))
+		case 1:
+			l[i] = tvStr(fmt.Sprint(u(v)))
+		default:
+			l[i] = tvUint("uint", u(v))
+		}
+	}
+	switch {
+	case len(vals) == 1 && r.Bool():
+		return l[0]
+	case r.Bool():
+		for i, v := range vals {
+			l[i] = tvUint("uint64", u(v))
+		}
+		return tvSlice("[]uint64", l...)
+	}
+	return tvList(l...)
+}
+
+// floatShape: the value v as a float with a fraction (integer part v; for 0 also with the sign bit set)
+func floatShape(r *Rand, vals []int64) TV {
+	l := make([]TV, len(vals))
+	for i, v := range vals {
+		f := float64(v)
+		switch {
+		case v > 0 || (v == 0 && r.Bool()):
+			f += 0.5
+		default:
+			f -= 0.25
+		}
+		l[i] = tvFloat("float64", f)
+	}
+	if len(vals) == 1 && r.Bool() {
+		return l[0]
+	}
+	if r.Bool() {
+		return tvList(l...)
+	}
+	return tvSlice("[]float64", l...)
+}
+
 func randVals(r *Rand, n int, alphabet int) []int64 {
 	vs := make([]int64, n)
 	for i := range vs {
@@ -119,6 +168,18 @@ func genConj(r *Rand, o *docsetOpts) eConj {
 
 func genDocset(r *Rand, o *docsetOpts) eCase {
 	c := eCase{Kind: o.kind, Policy: "error"}
+	if !o.noPre && o.kind != "rr" { // representation variety per docset (the roaring cases keep their own value shapes)
+		oo := *o
+		switch r.Intn(12) {
+		case 0: // identities beyond the int64 range on both sides
+			oo.valueShape, oo.queryShape = bigUShape, bigUShape
+		case 1: // floats at query time against integers in the index
+			oo.queryShape = floatShape
+		case 2: // floats in the index against integers at query time
+			oo.valueShape = floatShape
+		}
+		o = &oo
+	}
 	nd := 1 + r.Intn(o.maxDocs)
 	used := map[int64]bool{}
 	for i := 0; i < nd; i++ {
@@ -235,7 +296,7 @@ func smallScope(kind string, add func(in interface{})) {
 	}
 }
 
-const e2eRule = "seeded document sets (1..maxDocs documents, 1..4 and sometimes 200+ conjunctions, 0..6 expressions over the fields with repetition on one field, 0..4 values from the alphabet {-1, 0, 1..5} in several Go representations, empty lists, all-negative and empty conjunctions, ids incl. 0 and +-(2^43-1)), every tenth case over 9..16 fields, every eighth with pattern and range fields next to the default ones; documents added one per AddDocument call or (30%) in groups of 2..5, (20%) with an intermediate BuildIndex before the remaining documents, (25%) on a builder that has already built and Reset an earlier generation; 8..20 queries per index (absent/nil/empty/1..3 values per field, an unknown field, repeats, debug options on 20%); thorough adds the exhaustive small scope (2 documents, conjunctions of <=2 atoms over 2 fields x 2 values, all 16 assignments). A case is non-trivial when some query returns a non-empty proper subset of the accepted documents; distinct = distinct input"
+const e2eRule = "seeded document sets (1..maxDocs documents, 1..4 and sometimes 200+ conjunctions, 0..6 expressions over the fields with repetition on one field, 0..4 values from the alphabet {-1, 0, 1..5} in several Go representations (per docset sometimes as identities beyond the int64 range 2^63+v in unsigned / decimal-string form, or as fractional floats on one side), empty lists, all-negative and empty conjunctions, ids incl. 0 and +-(2^43-1)), every tenth case over 9..16 fields, every eighth with pattern and range fields next to the default ones; documents added one per AddDocument call or (30%) in groups of 2..5, (20%) with an intermediate BuildIndex before the remaining documents, (25%) on a builder that has already built and Reset an earlier generation; 8..20 queries per index (absent/nil/empty/1..3 values per field, an unknown field, repeats, debug options on 20%); thorough adds the exhaustive small scope (2 documents, conjunctions of <=2 atoms over 2 fields x 2 values, all 16 assignments). A case is non-trivial when some query returns a non-empty proper subset of the accepted documents; distinct = distinct input"
 
 func init() {
 	gen := func(kind string, multiSat, mixed bool) func(tier string, r *Rand, add func(in interface{})) {
@@ -292,7 +353,7 @@ func init() {
 func init() {
 	props["C04"] = &propDef{header: "From BE Require Import Corr.CheckC04.",
 		headers:   map[string]string{"R": "From BE Require Import Corr.CheckRr."},
-		rule:      e2eRule + "; both posting-list index types with a recording ResultCollector, biased to documents with several simultaneously satisfied conjunctions of equal and different sizes, also over pattern fields (texts containing several keywords); the roaring scanner's raw result (GetRawResult after every retrieval) on default-container and pattern-container fields",
+		rule:      e2eRule + "; both posting-list index types with a recording ResultCollector, biased to documents with several simultaneously satisfied conjunctions of equal and different sizes, also over pattern fields (texts containing several keywords) and range fields (overlapping kept intervals); the roaring scanner's raw result (GetRawResult after every retrieval) on default-container and pattern-container fields",
 		shardSize: 25,
 		gen: func(tier string, r *Rand, add func(in interface{})) {
 			n := 40
@@ -317,6 +378,34 @@ func init() {
 					c := rCase{Fields: []rField{{F: 0, Cont: "default"}, {F: 1, Cont: "ac_matcher"}}, Docs: docs}
 					for _, q := range qs {
 						c.Ops = append(c.Ops, rOp{S: 0, Op: "reset"}, rOp{S: 0, Op: "retrieve", A: q.A}, rOp{S: 0, Op: "raw"})
+					}
+					add(c)
+				}
+			}
+			// range fields: kept intervals split by later ones, expanded ranges, `in` -- the collector must get the
+			// conjunctions whose interval covers the value, each once
+			for i := 0; i < n/2; i++ {
+				add(rangeDocset(r, []string{"kgroups", "compact"}[i%2], i%4 >= 2))
+			}
+			// many intervals over one field, added in an order that splits pieces already holding 1..5 entries, every
+			// later interval landing on one side of an earlier split
+			for _, kind := range []string{"kgroups", "compact"} {
+				for _, k := range []int{1, 2, 3, 4, 5} {
+					c := eCase{Kind: kind, Policy: "error", Configs: map[int]string{2: "ext_range"}}
+					gt := func(id, a int64) eDoc {
+						return eDoc{ID: id, Cons: []eConj{{{F: 0, Inc: true, V: tvStr("nowhere")}}, {{F: 2, Inc: true, Op: 1, V: tvInt("int64", a)}}}}
+					}
+					lt := func(id, b int64) eDoc {
+						return eDoc{ID: id, Cons: []eConj{{{F: 2, Inc: true, Op: 2, V: tvInt("int64", b)}}}}
+					}
+					id := int64(1)
+					for j := 0; j < k; j++ { // k documents covering (0, max): one piece with k entries
+						c.Docs = append(c.Docs, gt(id, 0))
+						id++
+					}
+					c.Docs = append(c.Docs, gt(id, 1000), lt(id+1, 500), gt(id+2, 2000), lt(id+3, 1500), lt(id+4, 5))
+					for _, x := range []int64{-3, 0, 1, 4, 5, 6, 499, 500, 501, 1000, 1001, 1499, 1500, 1501, 2000, 2001, 9000} {
+						c.Queries = append(c.Queries, eQuery{A: []eAssign{{F: 2, V: tvInt("int64", x)}}})
 					}
 					add(c)
 				}
